@@ -174,10 +174,17 @@ def ctxFrontend (fixed : Bool) (kinds : List Kind) (c : Ctx) : Bool :=
   && tempsOk kinds [] c.alwaysAccs && tempsOk kinds [] c.bodyAccs
   -- push assignments (`^=` / `.push`) exist only in the body of a sequential context
   && (c.kind == .seq || c.accs.all (fun a => !a.push)) && c.alwaysAccs.all (fun a => !a.push)
+  -- [fixed] "temporaries cannot be used in inline code of an always block": a Temporary that is still referenced by the
+  -- always block after the promotion of its own temporaries to signals (only possible through inline code) is rejected
+  && c.alwaysAccs.all (fun a => !fixed || kindOf kinds a.root != .temporary)
 
 def frontend (fixed : Bool) (d : Design) : Bool :=
   d.ctxs.all (ctxFrontend fixed d.kinds)
   && d.insts.all (fun b => (b.ins ++ b.outs).all (fun r => kindOf d.kinds r != .variable))
+  -- VhdlScope.declare "variables and temporaries cannot be shared between scopes": a temporary that is a port actual
+  -- (architecture scope) cannot be used in the body of a sequential context (process scope)
+  && d.insts.all (fun b => (b.ins ++ b.outs).all (fun r => kindOf d.kinds r != .temporary
+        || !(d.ctxs.any (fun c => c.kind == .seq && c.bodyAccs.any (fun a => a.root == r)))))
 
 def accept (fixed : Bool) (d : Design) : Bool := frontend fixed d && checkUsage fixed d
 
